@@ -174,6 +174,7 @@ inductive KeyKind where
   | int     -- Go `int` (as i64)
   | uint    -- Go `uint` (as u64)
   | sk      -- struct `{A string}`: ordered by, and layered on, its marshaled form
+  | skc     -- struct key of a tree with a CUSTOM marshaler: marshaled form `"c:<letters>"`
   deriving Repr, DecidableEq, Inhabited
 
 inductive ValKind where
@@ -202,6 +203,7 @@ def keyRaw (kk : KeyKind) (k : Nat) : Bytes :=
   | .str => strKey k
   | .bytes => bytesKey k
   | .sk => str "{\"A\":" ++ quote (strKey k) ++ str "}"
+  | .skc => quote ([99, 58] ++ strKey k)
   | _ => digits k
 
 /-- `json.Marshal(key)` -/
@@ -210,6 +212,7 @@ def keyBytes (kk : KeyKind) (k : Nat) : Bytes :=
   | .vk | .u64 | .uint => digits k
   | .i64 | .int => if k ≥ i64bias then digits (k - i64bias) else 45 :: digits (i64bias - k)
   | .sk => str "{\"A\":" ++ quote (strKey k) ++ str "}"
+  | .skc => quote ([99, 58] ++ strKey k)
   | .str => quote (strKey k)
   | .bytes => quote (b64std (bytesKey k))
 
